@@ -131,11 +131,16 @@ CLAIMED = {
             "offsets GlobalTransactionView computes (1/3/5/9-byte prefixes), vin(i) / vout(j) by 41-byte strides and output "
             "skipping, locktime and version equal the transaction's; _skip_scope moves exactly over one scope; a value lookup "
             "returns what is stored under exactly that key; update() never drops a field the scope had and an empty extra scope "
-            "changes nothing; clear_metadata keeps signatures, final scripts and tx fields in every mode. Each run opens "
+            "changes nothing; clear_metadata keeps signatures, final scripts and tx fields in every mode. Props/C05X.lean composes "
+            "these with C04: for every byte string the in-memory parser accepts (KEEP_ALL), embedded at any stream offset with any "
+            "suffix, the view opens and reports the same version, counts, locktime, tx version, vin/vout and the same input/output "
+            "scopes as the parsed PSBT — version 0 (view_refines_parse_v0_partial, excluding v0 streams that carry the v2-only count "
+            "keys 04/05, with witnesses that the view misreads those) and version 2 (view_refines_parse_v2_partial, requiring both "
+            "count keys, with a witness that the view refuses a stream without them). Each run opens "
             "generated PSBTs through PSBTView at random stream offsets in all three modes and compares everything it reports and "
             "writes (with extra signature/derivation streams) with the Lean model and, independently, with the fully parsed "
-            "in-memory PSBT (merge-then-compress). Partial: the composed statements view_refines_parse / write_to_eq_memory are "
-            "GOALs decided by the view-vs-memory predicate and correspondence only; 'same signatures' is covered in C02.",
+            "in-memory PSBT (merge-then-compress). Partial: write_to_eq_memory is a GOAL decided by the view-vs-memory predicate and "
+            "correspondence only; 'same signatures' is covered in C02.",
             "Trusted: Lean kernel + propext/Quot.sound/Classical.choice; harness generators; BytesIO seek/read semantics as "
             "modelled (seek past the end allowed).",
             "§5 C05"),
